@@ -169,9 +169,23 @@ def spec_cases(draw):
             "read_kw": {"mnemonic_case": c["mnemonic_case"]}}
 
 
+def wide_cases(tier):
+    """Many curves (every multiple of the default 7 fields per wrapped line and its neighbours) x wrap x version."""
+    counts = [6, 7, 8, 13, 14, 15, 21, 28, 36] if tier == "quick" else list(range(1, 41))
+    for c in counts:
+        for r in (1, 3):
+            for wrap in (True, False):
+                for version in (1.2, 2):
+                    curves = [["C%d" % j, "", "", "", [repr(100.0 + i * 0.5 + j * 1000) if (j == 0 or (i + j) % 4) else "nan" for i in range(r)]]
+                              for j in range(c)]
+                    desc = dict(version=[], well=[], params=[], curves=curves, other="", strt_unit="m", null=["f", "-9999.25"])
+                    yield {"src": {"desc": desc}, "opts": {"wrap": wrap, "version": version}, "cycles": 3, "read_kw": {}}
+
+
 def parts(tier):
     return [
         Enum("example-corpus", corpus_cases),
-        Hyp("generated-lasfiles", desc_cases, quick=1500, thorough=50000),
-        Hyp("generated-texts", spec_cases, quick=800, thorough=20000),
+        Enum("wide-files-wrapped-and-not", wide_cases),
+        Hyp("generated-lasfiles", desc_cases, quick=3000, thorough=50000),
+        Hyp("generated-texts", spec_cases, quick=1500, thorough=20000),
     ]
